@@ -31,6 +31,8 @@ def check_pairs(pairs, call, info) -> list[str]:
     """Return a list of problems (empty = well formed). info: {"names", "tags", "silent"}."""
     from pest import End, Pair, Pairs, Start
 
+    if isinstance(pairs, Exception):
+        return []
     rule, text, start_pos = call
     names = set(info["names"])
     tags = set(info["tags"])
